@@ -170,9 +170,8 @@ def deaggregate (mk : Tx) (txs : List Tx) : Except Err Tx :=
   | .error e => .error e
   | .ok a =>
     let kers := (mk.kers.filter (fun k => !a.kers.contains k)).eraseDups
-    -- nothing new in `mk`: its offset equals the offset of the aggregate of `txs`, the difference
-    -- is the zero scalar and `secp.blind_sum` fails (`Error::Secp(InvalidSecretKey)`)
-    if kers.isEmpty then .error "InvalidTx:Secp" else
+    -- (nothing new in `mk`: the offsets cancel out; since b04699b48 that yields the zero offset
+    -- instead of `Error::Secp(InvalidSecretKey)`, and the empty remainder fails validation)
     .ok { ins := (mk.ins.filter (fun i => !a.ins.contains i)).eraseDups,
           outs := (mk.outs.filter (fun o => !a.outs.contains o)).eraseDups,
           kers := kers,
@@ -453,10 +452,12 @@ def verifyKernelVariants (c : Ctx) (t : Tx) : Res :=
 
 /-- `is_acceptable` -/
 def TxPool.isAcceptable (c : Ctx) (s : TxPool) (t : Tx) (stem : Bool) : Res :=
-  if s.txpool.length > c.cfg.maxPool then some "OverCapacity"
+  -- the fee first (since 3aef11dd9): the caller reads `OverCapacity` on the fluff path as "admit,
+  -- then evict", which must never apply to a transaction paying less than the minimum fee
+  if t.shiftedFee < t.acceptFee c.cfg then some "LowFee"
+  else if s.txpool.length > c.cfg.maxPool then some "OverCapacity"
   else if (stem && decide (s.stempool.length > c.cfg.maxStem)) || decide (s.txpool.length > c.cfg.maxPool) then
     some "OverCapacity"
-  else if t.shiftedFee < t.acceptFee c.cfg then some "LowFee"
   else none
 
 /-- some coinbase output among `spent` (all unspent at the head) is immature at the next height -/
